@@ -366,6 +366,40 @@ def check(repo: Repo, run: Run) -> None:
                f"a callstack is yielded when {[sym.pretty(c)[:60] for c, _ in ys[0].pc]}, not exactly for PerfEvent traces whose "
                f"cs_frames is not None", nontrivial=False)
 
+    # ------------------------------------------------------------------ R6 the image tables are the caller's
+    # PyKdebugParser hands its own (at first empty) lists to every CallstacksParser it builds: the images announced in one
+    # dump are known in the next because they are the same two objects.  A table that was given is kept as it is.
+    init = cp.methods.get("__init__")
+    if init is None or len(init.args.args) < 3:
+        run.floor_failures.append("C15/R6: CallstacksParser.__init__ does not take the two image tables: who owns them is not decided")
+    else:
+        irec = interp.run(cp.module, init, self_cls=cp)
+
+        def _given(v, prm):
+            """v with `prm is None` taken as false (a table WAS given)."""
+            if v.op == "ite":
+                atom, pol = render.norm_bool(v.a[0])
+                if atom == T("cmp", ("is", prm, const(None))):
+                    return _given(v.a[2] if pol else v.a[1], prm)
+                if atom == T("cmp", ("is not", prm, const(None))):
+                    return _given(v.a[1] if pol else v.a[2], prm)
+            return v
+        n_tab = 0
+        for attr in ("dyld_addresses", "dyld_uuids"):
+            sts = [e for e in irec.effects if e.kind == "attr-store" and e.key == attr and (e.path or e.base) == SELF]
+            if len(sts) != 1:
+                run.floor_failures.append(f"C15/R6: self.{attr} is stored {len(sts)} times in CallstacksParser.__init__")
+                continue
+            n_tab += 1
+            prms = [param(a.arg) for a in init.args.args[1:]]
+            kept = [prm for prm in prms if _given(sts[0].value, prm) == prm and not sts[0].pc]
+            run.ob("R6", MOD, "CallstacksParser.__init__", f"self.{attr} is the table it was given", bool(kept),
+                   "" if kept else
+                   f"CallstacksParser.__init__ stores {sym.pretty(sts[0].value)[:60]} as self.{attr}: a table that was given - the "
+                   f"facade's own, still empty, list - is replaced by another object, so the images one dump announces are not known "
+                   f"when the next dump's samples are attributed", line=sts[0].lineno,
+                   witness="one PyKdebugParser: a dump with the image announcements, then a dump with the samples")
+        run.floor("R6", "image tables stored by the constructor", n_tab, 2)
     # ------------------------------------------------------------------ R3 frames in the sampler decoder
     D = decoders.Decoders(repo)
     # R5 the class tests of feed_generator mean one kind of trace: `isinstance(trace, X)` is also true for the subclasses of
